@@ -141,6 +141,10 @@ func runC03(c *core.Ctx) {
 				c.Violate(fmt.Sprintf("C03|func|EncryptFRMPayload|keystream|up=%v|blocks=%d", up, (ln+15)/16), "len=%d up=%v fcnt=%d devaddr=%x key=%x\n got  %x\n want %x", ln, up, fcnt, da, key, out, want)
 				continue
 			}
+			// the same call again gives the same answer (nothing is remembered from one call to the next)
+			if again, e2 := lorawan.EncryptFRMPayload(lorawan.AES128Key(key), up, lorawan.DevAddr(da), fcnt, append(make([]byte, 0, ln), pt...)); e2 != nil || !bytes.Equal(again, want) {
+				c.Violate("C03|func|EncryptFRMPayload|second-identical-call-differs", "len=%d: first call %x, second call with the same arguments %x (%v)", ln, out, again, e2)
+			}
 			// involution
 			in2 := append(make([]byte, 0, len(out)), out...)
 			out2, err := lorawan.EncryptFRMPayload(lorawan.AES128Key(key), up, lorawan.DevAddr(da), fcnt, in2)
